@@ -40,8 +40,10 @@ static int one_case(long N, int nwaiters, int accelerated, char * msg, size_t ms
     if (write(pfd[1], m, strlen(m) + 1) < 0) {}
     _exit(bad);
   }
-  close(pfd[1]); ssize_t k = read(pfd[0], msg, msz - 1); if (k < 0) k = 0; msg[k] = 0; close(pfd[0]);
-  int st; waitpid(pid, &st, 0);
+  close(pfd[1]);
+  int st; int hung = sq_wait_child(pid, 90, &st);
+  ssize_t k = read(pfd[0], msg, msz - 1); if (k < 0) k = 0; msg[k] = 0; close(pfd[0]);
+  if (hung) { snprintf(msg, msz, "a waiter is left sleeping after the N-th decrement (watchdog)"); return 1; }
   if (WIFSIGNALED(st)) { snprintf(msg, msz, "%s", WTERMSIG(st) == SIGALRM ? "a waiter is left sleeping after the N-th decrement (watchdog)" : "process crashed (assertion in the library)"); return 1; }
   return WEXITSTATUS(st);
 }
